@@ -87,6 +87,9 @@ pub struct Names {
     /// per worker: the API call it is in, and its last atomic access (for oracle messages)
     cur_api: HashMap<usize, String>,
     last_site: HashMap<usize, String>,
+    /// values whose writer's debt walk was aborted by an injected destructor panic: identity of
+    /// the value it had taken out of the storage → (worker, operation, last atomic access)
+    aborted_walks: HashMap<String, (usize, String, String)>,
 }
 
 /// where the calling worker is: `(t<w> in `<api call>`, last atomic access <site> [fail])`
@@ -1168,6 +1171,7 @@ where
         n.reserved.clear();
         n.cur_api.clear();
         n.last_site.clear();
+        n.aborted_walks.clear();
         n.head = verif::list_head_addr();
     });
     verif::set_hooks(Some(before_hook), Some(after_hook));
@@ -1218,6 +1222,19 @@ where
                                     .or_else(|| p.downcast_ref::<&str>().map(|s| s.to_string()))
                                     .unwrap_or_default();
                                 if msg.starts_with("injected") {
+                                    // a destructor panicked inside a writer's debt walk (after its
+                                    // exchange): remember which value it had taken out
+                                    names(|n| {
+                                        let site = n.last_site.get(&w).cloned().unwrap_or_default();
+                                        let in_walk = site.contains("Debt::pay") || site.contains("Slots::help") || site.contains("Node::traverse")
+                                            || site.contains("NodeReservation") || site.contains("reserve_writer") || site.contains("LocalNode::help")
+                                            || site.contains("attempt") || site.contains("fallback") || site.contains("Slots::confirm") || site.contains("Slots::get_debt");
+                                        if is_writer_api(&op.text()) && in_walk {
+                                            if let Some((_, _, replaced, _, _)) = n.last_write.get(&w).cloned() {
+                                                n.aborted_walks.insert(replaced, (w, op.text(), site));
+                                            }
+                                        }
+                                    });
                                     emit("end panic-injected".to_string());
                                 } else {
                                     violation(format!("panic: t{} in `{}`: {}", w, op.text(), msg));
@@ -1367,12 +1384,15 @@ where
         .join();
         for (k, e) in varc::ENTRIES.iter().enumerate() {
             if e.live.load(SeqCst) {
-                violation(format!(
-                    "leak: p{}#{} still has count {} after every owner was dropped",
-                    k + 1,
-                    e.id.load(SeqCst),
-                    e.cnt.load(SeqCst)
-                ));
+                let id = format!("p{}#{}", k + 1, e.id.load(SeqCst));
+                let cnt = e.cnt.load(SeqCst);
+                match names(|n| n.aborted_walks.get(&id).cloned()) {
+                    Some((w, op, site)) if cnt == 1 => violation(format!(
+                        "leak-after-aborted-walk: {} keeps count 1 after every owner was dropped: a pointee destructor panicked inside the debt walk of the writer that had taken it out of the storage (t{} in `{}`, last atomic access {}), and the reference taken out is never released",
+                        id, w, op, site
+                    )),
+                    _ => violation(format!("leak: {} still has count {} after every owner was dropped", id, cnt)),
+                }
             }
         }
     }
